@@ -40,6 +40,9 @@ pub struct Scenario {
     pub spawn: SpawnPlan,
     pub script: Vec<Op>,
     pub order: Order,
+    /// earlier calls of the same job in the same process, each with its own formatter
+    #[serde(default)]
+    pub earlier: Vec<(SpawnPlan, Vec<Op>)>,
 }
 
 #[derive(Debug, Clone, Serialize, Deserialize)]
@@ -367,31 +370,47 @@ pub fn case_main() -> i32 {
     // what the parent will send: the raw token string is not available here, but its length is
     // within a few percent of the pretty-printed reference; the child only needs a lower bound
     let expected_len = reference.text.len() / 2;
-    let cfg = ChildConfig {
-        script: sc.script.clone(),
-        order: sc.order,
-        expected_len,
-        reference_path: reference_path.clone(),
+    let path_with_stub = std::env::var("PATH").unwrap_or_default();
+    let prepare = |spawn: SpawnPlan, script: &[Op]| {
+        let cfg = ChildConfig {
+            script: script.to_vec(),
+            order: sc.order,
+            expected_len,
+            reference_path: reference_path.clone(),
+        };
+        std::env::set_var("WGSL_SIM_CHILD_SCRIPT", serde_json::to_string(&cfg).unwrap());
+        match spawn {
+            SpawnPlan::Ok => std::env::set_var("PATH", &path_with_stub),
+            // "formatter missing": a PATH without any rustfmt / with a non-executable one
+            SpawnPlan::NotFound => std::env::set_var("PATH", format!("{dir}/empty")),
+            _ => std::env::set_var("PATH", format!("{dir}/noexec")),
+        }
     };
-    std::env::set_var("WGSL_SIM_CHILD_SCRIPT", serde_json::to_string(&cfg).unwrap());
-    match sc.spawn {
-        SpawnPlan::Ok => {}
-        // "formatter missing": a PATH without any rustfmt / with a non-executable one
-        SpawnPlan::NotFound => std::env::set_var("PATH", format!("{dir}/empty")),
-        _ => std::env::set_var("PATH", format!("{dir}/noexec")),
-    }
     verif_hooks::install(Some(Arc::new(KernelBackend { order: sc.order }) as Arc<dyn Backend>));
     // A real hang must not take the harness with it.
     unsafe {
         libc::alarm(20);
     }
+    // earlier calls of the sequence, judged like the last one (the first failure is the verdict)
+    let mut first_failure: Option<String> = None;
+    for (spawn, script) in &sc.earlier {
+        prepare(*spawn, script);
+        let result = std::panic::catch_unwind(std::panic::AssertUnwindSafe(|| {
+            corpus::run_job(&source, sc.job.include_path.as_deref(), options)
+        }));
+        let (class, failure) = c19::judge(result, &reference, None);
+        if failure.is_some() && first_failure.is_none() {
+            first_failure = Some(class);
+        }
+    }
+    prepare(sc.spawn, &sc.script);
     let result = std::panic::catch_unwind(std::panic::AssertUnwindSafe(|| {
         corpus::run_job(&source, sc.job.include_path.as_deref(), options)
     }));
     verif_hooks::install(None);
     let _ = std::fs::remove_file(&reference_path);
     let (class, _failure) = c19::judge(result, &reference, None);
-    println!("{}", serde_json::json!({"class": class}));
+    println!("{}", serde_json::json!({"class": first_failure.unwrap_or(class)}));
     0
 }
 
@@ -458,6 +477,40 @@ pub fn scenarios(tier: Tier) -> Vec<Scenario> {
                     spawn: *spawn,
                     script: script.clone(),
                     order,
+                    earlier: vec![],
+                });
+            }
+        }
+    }
+    // sequences of calls in one process: what an earlier call's formatter did (a zombie, a closed
+    // pipe, a signal) must not reach the next call on the real kernel either
+    let find = |name: &str| scripts.iter().find(|(n, _, _)| *n == name).map(|(_, s, ops)| (*s, ops.clone())).unwrap();
+    let sequences: Vec<(&str, Vec<&str>)> = vec![
+        ("seq_exit1_without_reading_then_normal", vec!["exit1_without_reading", "normal"]),
+        ("seq_sigkill_mid_output_then_normal", vec!["sigkill_mid_output", "normal"]),
+        ("seq_absent_then_normal", vec!["absent_notfound", "normal"]),
+        ("seq_normal_then_absent", vec!["normal", "absent_notfound"]),
+        ("seq_read5000_sigkill_then_empty", vec!["read5000_sigkill", "empty_after_reading"]),
+        ("seq_normal_then_exit1_after_prefix", vec!["normal", "exit101_after_prefix"]),
+        ("seq_three_failures_then_normal", vec!["sigkill_at_once", "exit1_without_reading", "chatty_exit1_without_reading", "normal"]),
+    ];
+    for (sname, shader) in shaders.iter().take(2) {
+        for (name, steps) in &sequences {
+            for order in [Order::ChildFirst, Order::ParentFirst] {
+                let mut options = Opts::plain();
+                options.bytemuck_host = true;
+                let (last_spawn, last_script) = find(steps[steps.len() - 1]);
+                out.push(Scenario {
+                    name: format!("{name}/{sname}/{order:?}"),
+                    job: Job {
+                        shader: shader.clone(),
+                        include_path: None,
+                        options,
+                    },
+                    spawn: last_spawn,
+                    script: last_script,
+                    order,
+                    earlier: steps[..steps.len() - 1].iter().map(|s| find(s)).collect(),
                 });
             }
         }
@@ -470,7 +523,18 @@ fn model_class(sc: &Scenario) -> String {
         job: sc.job.clone(),
         proc: model_plan(sc),
         later: vec![],
-        earlier_calls: vec![],
+        earlier_calls: sc
+            .earlier
+            .iter()
+            .map(|(spawn, script)| {
+                model_plan(&Scenario {
+                    spawn: *spawn,
+                    script: script.clone(),
+                    earlier: vec![],
+                    ..sc.clone()
+                })
+            })
+            .collect(),
     };
     c19::run_case_isolated(&case, false).outcome_class
 }
@@ -623,7 +687,16 @@ pub fn cross_check(tier: Tier) -> Result<KernelReport, String> {
             report.agree += 1;
         } else {
             let sc = list[i].clone();
-            let (eligible, _) = c19::classify(&model_plan(&sc));
+            let (mut eligible, _) = c19::classify(&model_plan(&sc));
+            for (spawn, script) in &sc.earlier {
+                let step = Scenario {
+                    spawn: *spawn,
+                    script: script.clone(),
+                    earlier: vec![],
+                    ..sc.clone()
+                };
+                eligible &= c19::classify(&model_plan(&step)).0;
+            }
             report.disagreements.push(Disagreement {
                 scenario: sc,
                 model,
